@@ -165,6 +165,16 @@ func (c *ctx) check(ns, mode string, element string, prog c08.Prog, class string
 		}
 	case "u":
 		mk = func(rec xmpp.Handler) xmpp.Handler { return mux.New(ns) }
+	case "q":
+		// what most IQ handlers do: answer with a reply built from the stanza.IQ the
+		// multiplexer parsed (stanza.NewIQ), not from the start element
+		mk = func(rec xmpp.Handler) xmpp.Handler {
+			h := mux.IQHandlerFunc(func(iq stanza.IQ, t xmlstream.TokenReadEncoder, start *xml.StartElement) error {
+				_, err := xmlstream.Copy(t, iq.Result(nil))
+				return err
+			})
+			return mux.New(ns, mux.IQ(stanza.GetIQ, xml.Name{}, h), mux.IQ(stanza.SetIQ, xml.Name{}, h))
+		}
 	}
 	res := c08.Serve(ns, local, remote, body, []c08.Prog{prog}, mk)
 	line := strings.Join([]string{"elem", mode, c08.NsField(ns), common.HexS(res.LocalBare), c08.JidMap(toks), common.EncToks(toks), prog.Enc()}, " ")
@@ -299,6 +309,24 @@ func (c *ctx) check(ns, mode string, element string, prog c08.Prog, class string
 		if handlerReplies > 0 && added != 0 {
 			fail("no-double", "added-after-reply", fmt.Sprintf("%d elements added although the handler replied", added))
 		}
+		// whatever was not written by the recording handler (the session's automatic error, the
+		// multiplexer's fallback, a reply a registered handler built from the parsed IQ) answers
+		// THIS request: it carries the request's id unchanged - ids are opaque - and there is
+		// one such element at most
+		if len(outEls) >= len(handlerEls) {
+			strays := 0
+			for _, e := range outEls[len(handlerEls):] {
+				if !isReply(e.Toks, id, ns) {
+					strays++
+				}
+			}
+			if strays > 0 {
+				fail("answered-once", "stray-reply", fmt.Sprintf("%d elements were sent in answer to request %q that are not replies to that id (%d elements on the wire)", strays, id, len(outEls)))
+			}
+			if handlerReplies == 0 && added > 1 {
+				fail("answered-once", "double", fmt.Sprintf("%d elements were sent in answer to request %q, want 1", added, id))
+			}
+		}
 		if handlerReplies == 0 && outReplies == 1 {
 			// the added reply is an error addressed to the sender
 			wantTo := ""
@@ -310,7 +338,10 @@ func (c *ctx) check(ns, mode string, element string, prog c08.Prog, class string
 			if lastReply.To != wantTo {
 				fail("addressed", "to", fmt.Sprintf("added reply to=%q, want %q", lastReply.To, wantTo))
 			}
-			if lastReply.Typ != "error" || !lastReply.SU {
+			// (behind the multiplexer the one reply may be the multiplexer's or a registered
+			// handler's own: the property then only asks for a reply; the session's own is
+			// the service-unavailable error)
+			if mode == "d" && (lastReply.Typ != "error" || !lastReply.SU) {
 				fail("answered-once", "not-service-unavailable", fmt.Sprintf("added reply type=%q su=%v", lastReply.Typ, lastReply.SU))
 			}
 		}
@@ -703,6 +734,40 @@ func element(local, ns, id, typ, from, to, extra, payload string) string {
 	return sb.String()
 }
 
+// elementA is an element whose attributes are written in the given order with the given raw
+// values (already escaped).
+func elementA(local, ns string, attrs [][2]string, payload string) string {
+	var sb strings.Builder
+	sb.WriteString("<" + local)
+	if ns != "" {
+		sb.WriteString(` xmlns="` + ns + `"`)
+	}
+	for _, a := range attrs {
+		sb.WriteString(" " + a[0] + `="` + a[1] + `"`)
+	}
+	sb.WriteString(">" + payload + "</" + local + ">")
+	return sb.String()
+}
+
+// perms returns all orders of 0..n-1.
+func perms(n int) [][]int {
+	if n == 0 {
+		return [][]int{nil}
+	}
+	var out [][]int
+	for _, p := range perms(n - 1) {
+		for i := 0; i <= len(p); i++ {
+			q := append(append(append([]int{}, p[:i]...), n-1), p[i:]...)
+			out = append(out, q)
+		}
+	}
+	return out
+}
+
+func unescape(s string) string {
+	return strings.NewReplacer("&lt;", "<", "&#9;", "\t", "&#10;", "\n", "&amp;", "&").Replace(s)
+}
+
 func progOf(ws []string, id string, reads int, ret string) c08.Prog {
 	p := c08.Prog{Ret: ret}
 	w := writes(id)
@@ -848,8 +913,80 @@ func Facts(repo string) (string, error) {
 	} else {
 		sb.WriteString("def detectorProbe : Option (List (Nat × Nat × Nat × Nat × Nat × Bool)) := some [\n  " + strings.Join(rows, ",\n  ") + "]\n")
 	}
+	sb.WriteString("\n" + newIQFacts())
 	sb.WriteString("\nend XmppModel.Generated.C07\n")
 	return sb.String(), nil
+}
+
+func leanStr(s string) string {
+	var sb strings.Builder
+	sb.WriteByte('"')
+	for _, c := range s {
+		switch {
+		case c == '"' || c == '\\':
+			sb.WriteByte('\\')
+			sb.WriteRune(c)
+		case c == '\n':
+			sb.WriteString("\\n")
+		case c == '\t':
+			sb.WriteString("\\t")
+		case c < 0x20:
+			fmt.Fprintf(&sb, "\\x%02x", c)
+		default:
+			sb.WriteRune(c)
+		}
+	}
+	sb.WriteByte('"')
+	return sb.String()
+}
+
+// newIQFacts probes the real stanza.NewIQ - the reader the multiplexer and most IQ handlers use
+// - on the finite domain every order of the unqualified type / id / from / to attributes x id
+// values x type values (plain, padded with white space on either side, inner white space,
+// empty), optionally with attributes of the same local names in another namespace in between,
+// and renders (attributes, id read, type read, addresses parsed).  The session reads id and
+// type of the same start element with getIDTyp; the consuming theorem proves the two readers
+// agree on every row: what NewIQ hands a handler as the id is the id the session will look for
+// in the reply.
+func newIQFacts() string {
+	ids := []string{"x1", " x1", "x1 ", "\tx 1\n", ""}
+	typs := []string{"get", " get", "result ", "se t", ""}
+	var rows []string
+	ok := true
+	for pi, perm := range perms(4) {
+		for ii, id := range ids {
+			for ti, typ := range typs {
+				if (pi+ii+ti)%2 == 1 && ii > 0 && ti > 0 {
+					continue
+				}
+				vals := []xml.Attr{at("type", typ), at("id", id), at("from", "a@example.org/r"), at("to", "me@example.com")}
+				var attrs []xml.Attr
+				for k, v := range perm {
+					attrs = append(attrs, vals[v])
+					if (pi+ii)%5 == 0 && k == 1 {
+						attrs = append(attrs, xml.Attr{Name: xml.Name{Space: "urn:p", Local: "id"}, Value: "pid "}, xml.Attr{Name: xml.Name{Space: "urn:p", Local: "type"}, Value: "error"})
+					}
+				}
+				iq, err := stanza.NewIQ(xml.StartElement{Name: xml.Name{Space: c08.NSClient, Local: "iq"}, Attr: attrs})
+				if err != nil || iq.From.String() != "a@example.org/r" || iq.To.String() != "me@example.com" {
+					ok = false
+				}
+				var as []string
+				for _, a := range attrs {
+					as = append(as, fmt.Sprintf("⟨⟨%s, %s⟩, %s⟩", leanStr(a.Name.Space), leanStr(a.Name.Local), leanStr(a.Value)))
+				}
+				rows = append(rows, fmt.Sprintf("([%s], %s, %s)", strings.Join(as, ", "), leanStr(iq.ID), leanStr(string(iq.Type))))
+			}
+		}
+	}
+	var sb strings.Builder
+	sb.WriteString("/-- (attributes of an iq start element, the id and the type the real `stanza.NewIQ` read from them)\nfor every order of type / id / from / to x padded, inner-space and empty values -/\n")
+	if !ok || len(rows) == 0 {
+		sb.WriteString("def newIQReads : Option (List (List (((String × String)) × String) × String × String)) := none\n")
+	} else {
+		sb.WriteString("def newIQReads : Option (List (List ((String × String) × String) × String × String)) := some [\n  " + strings.Join(rows, ",\n  ") + "]\n")
+	}
+	return sb.String()
 }
 
 // Run is the C07 runner.
@@ -1063,6 +1200,55 @@ func Run(r *common.Run) error {
 		}
 	}
 
+	// attribute ORDER and attribute VALUES as the peer chose them: every order of type / id /
+	// from / to x every IQ type x addresses that parse, do not parse (before or after the type
+	// attribute), are padded with white space, are empty x ids that are padded (ids are opaque:
+	// a reply carries the id unchanged) x handler direct / the multiplexer with a recording
+	// handler, with a handler that answers from the parsed stanza.IQ, with nothing registered
+	{
+		addrCases := [][2]string{ // from, to
+			{"a@example.org/r", "-"},
+			{"a@example.org/r", "@example.net"},
+			{"a@b@c", "OWN"},
+			{" a@example.org/r", "-"},
+			{"a@example.org/r", "x@example.com "},
+			{"", "a@b/"},
+		}
+		idCases := []string{"ao", " ao", "ao ", "&#9;a o&#10;"}
+		typCases := []string{"get", "set", "result", "error", " get", "result "}
+		for _, ns := range nsList {
+			own := map[string]string{c08.NSClient: "me@example.com", c08.NSServer: "example.com"}[ns]
+			for pi, perm := range perms(4) {
+				for ti, typ := range typCases {
+					for ai, ac := range addrCases {
+						for ii, id := range idCases {
+							if r.Quick() && (pi+ti+ai+ii)%3 != 0 {
+								continue
+							}
+							vals := [][2]string{{"type", typ}, {"id", id}, {"from", ac[0]}, {"to", strings.ReplaceAll(ac[1], "OWN", own)}}
+							var attrs [][2]string
+							for _, k := range perm {
+								if vals[k][1] != "-" {
+									attrs = append(attrs, vals[k])
+								}
+							}
+							e := elementA("iq", "", attrs, payloads[(pi+ai)%2*3])
+							rid := unescape(id)
+							for mi, m := range []string{"d", "r", "u", "q"} {
+								var ws []string
+								if (m == "d" || m == "r") && (pi+ii+mi)%2 == 0 {
+									ws = []string{"result"}
+								}
+								c.check(ns, m, e, progOf(ws, rid, ai%2, "ok"), "exhaustive-attrs")
+							}
+						}
+					}
+				}
+			}
+		}
+		r.Exhaustive = append(r.Exhaustive, "every order of the type / id / from / to attributes x 6 type values x 6 address cases (unparsable before / after the type, padded, empty) x 4 id values (padded with white space) x 4 modes (every third combination in the quick tier)")
+	}
+
 	// handlers that return an error value after writing 0 / 1 / 2 replies: plain error,
 	// io.EOF, stanza.Error, stream.Error; direct and behind the mux (registered), for every
 	// IQ type
@@ -1261,12 +1447,12 @@ func Run(r *common.Run) error {
 		if rnd.Chance(1, 2) {
 			l = locals[0]
 		}
-		id := []string{"r1", "r2", "-", "x y", "&lt;"}[rnd.Intn(5)]
+		id := []string{"r1", "r2", "-", "x y", "&lt;", " r3", "r4 ", " ", "&#9;r5"}[rnd.Intn(9)]
 		if rnd.Chance(2, 3) {
 			id = fmt.Sprintf("id%d", rnd.Intn(100))
 		}
-		from := []string{"-", "a@example.org/r", own, "example.org", "B@Example.ORG/R", own + "/res", "a@b@c", ""}[rnd.Intn(8)]
-		to := []string{"-", own, "x@example.com"}[rnd.Intn(3)]
+		from := []string{"-", "a@example.org/r", own, "example.org", "B@Example.ORG/R", own + "/res", "a@b@c", "", " a@example.org/r", own + " "}[rnd.Intn(10)]
+		to := []string{"-", own, "x@example.com", "@example.net", " " + own, ""}[rnd.Intn(6)]
 		extra := ""
 		if rnd.Chance(1, 6) {
 			extra = ` xmlns:p="urn:p" p:id="pid" p:type="result" p:from="pf@example.org"`
@@ -1275,7 +1461,27 @@ func Run(r *common.Run) error {
 		if rnd.Chance(1, 10) {
 			pl = []string{"text", "<!--c-->", `<q xmlns="urn:q"><?pi x?></q>`, `<stream:features/>`}[rnd.Intn(4)]
 		}
-		e := element(l.local, l.ns, id, types[rnd.Intn(len(types))], from, to, extra, pl)
+		typ := types[rnd.Intn(len(types))]
+		if rnd.Chance(1, 12) {
+			typ = []string{" get", "set ", " result", "error "}[rnd.Intn(4)]
+		}
+		e := element(l.local, l.ns, id, typ, from, to, extra, pl)
+		if rnd.Chance(1, 2) {
+			// the peer's own attribute order
+			var attrs [][2]string
+			for _, a := range [][2]string{{"type", typ}, {"id", id}, {"from", from}, {"to", to}} {
+				if a[1] != "-" {
+					attrs = append(attrs, a)
+				}
+			}
+			for i := len(attrs) - 1; i > 0; i-- {
+				j := rnd.Intn(i + 1)
+				attrs[i], attrs[j] = attrs[j], attrs[i]
+			}
+			xl := l.local + extra
+			e = elementA(xl, l.ns, attrs, strings.ReplaceAll(pl, "ID", id))
+			e = strings.Replace(e, "</"+xl+">", "</"+l.local+">", 1)
+		}
 		var ws []string
 		for k := rnd.Intn(4); k > 0; k-- {
 			ws = append(ws, writeNames[rnd.Intn(len(writeNames))])
@@ -1288,11 +1494,8 @@ func Run(r *common.Run) error {
 		if wid == "-" {
 			wid = ""
 		}
-		wid = strings.ReplaceAll(wid, "&lt;", "<")
-		mode := modes[rnd.Intn(3)]
-		if mode != "d" && (from == "a@b@c") {
-			mode = "d"
-		}
+		wid = unescape(wid)
+		mode := []string{"d", "r", "u", "q"}[rnd.Intn(4)]
 		c.check(ns, mode, e, progVia(ws, wid, rnd.Intn(6), ret, []int{rnd.Intn(7), rnd.Intn(7), 0}), "random")
 	}
 	return nil
